@@ -34,10 +34,19 @@ CHECKS = {
                      "(comparison on to_lowercase), divergence on unknown names before any analysis, list selection with/without --toml, use of every config field, "
                      "and the precedence --path > toml path > ./contracts as guards of the definitions of Opts.path.",
                 note=_MIR + "; clap / toml / serde behaviour"),
+    "C15": dict(level="other", design_ref="5/C15", technique="purity / effect analysis over the call graph from analyze_for_*: statics, effectful callees, flow of the file index, order-sensitivity of hash-ordered loops (static analysis)",
+                text="Absence properties over a finite call graph (78 bodies): no shared mutable state, no effectful callee, the file index reaches only the parser, "
+                     "Loc's file field is never read, hash-ordered loops in detectors feed only order-insensitive sinks, the per-file call sees only its own file. "
+                     "A pure function of (content, pattern) is independent of co-selection, repetition, position and thread interleaving.",
+                note=_MIR + "; purity of solang_parser::parse and regex is trusted"),
     "C16": dict(level="other", design_ref="5/C16", technique="guard-DNF extraction at the file read + dominance of the filter over every content access (static analysis)",
                 text="The guard of the only content read in each analyze_dir equals !is_dir && ends_with(name,'.sol') && !ends_with(lower(name),'.t.sol') with name "
                      "the final path component; every content access is under it; before it only listing/name conversions can fail; three siblings identical.",
                 note=_MIR + "; str::ends_with/to_lowercase contracts; valid-Unicode names"),
+    "C17": dict(level="other", design_ref="5/C17", technique="text-confinement and Loc-opacity analysis: flow of the raw text parameter, detector signatures, Loc accessor inventory (static analysis)",
+                text="Decides the structural part: detectors cannot observe layout or comments (they receive only the tree; locations are opaque inside them; the comment "
+                     "list is dropped; the text reaches only the parser and the line lookup). Does not decide that the parser is layout-invariant (trusted).",
+                note=_MIR + "; parser layout invariance trusted"),
     "C18": dict(level="other", design_ref="5/C18", technique="effect inventory over resolved callees of both crates + post-dominance of the single write (static analysis)",
                 text="Every std::fs/io/process/env/net/os callee of both local crates is inventoried; the only write-capable one is fs::write to the literal "
                      "solstat_report.md, on every path through generate_report and main, after the analysis; analysis code is read-only.",
